@@ -148,6 +148,7 @@ def monitor(R, out, log):
             return
     if name == "ScipyIVP":
         ud, lag, laga, lac = sol.u_dot, sol.la_g, sol.la_gamma, sol.la_c
+        s.reset()  # tracked joint angles are history dependent: follow the stored trajectory from its start
         for k in range(nt):
             M = s.M(t[k], q[k]).toarray()
             res = (
